@@ -27,7 +27,7 @@ import (
 var c06Alphabet = []string{
 	"2020-01-01", "2020-01-03", "9999-12-31", " ", "\n", "\r\n", "\r", "\t", "    ", "1h",
 	"-", "?", "8:00", "24:00", "(", ")", "!", "#a", "x", "中",
-	"\u00a0", "\xff", "\x00", "\xe4\xb8", "99999999999999999999h", "9223372036854775807m", "153722867280912930h", ":", "<", ">",
+	"\u00a0", "\ufffd", "\xff", "\x00", "\xe4\xb8", "99999999999999999999h", "9223372036854775807m", "153722867280912930h", ":", "<", ">",
 }
 
 // the 16-token core used one level deeper
@@ -90,7 +90,7 @@ func init() {
 	fw.Register(&fw.Check{
 		ID:    "C06",
 		Title: "No file content can crash klog: parsing and evaluation are total",
-		Rule: "ALL strings of at most k tokens over a 30-token alphabet of klog fragments, hostile bytes (invalid/truncated UTF-8, NUL, lone CR) and absurd numbers (k=4 quick, 5 thorough), " +
+		Rule: "ALL strings of at most k tokens over a 31-token alphabet of klog fragments, hostile bytes (invalid/truncated UTF-8, NUL, lone CR) and absurd numbers (k=4 quick, 5 thorough), " +
 			"plus all strings of exactly k+1 (and k+2 thorough) tokens over a 16-token core, plus very long lines (10^5 repetitions of each token in three positions) and hand-picked deep cases; " +
 			"each is parsed serially and in parallel (2 and 3 workers), every error accessor and renderer is called, and for accepted inputs every read-only command runs. " +
 			"non-trivial = not blank-only; distinct by text hash. The property's sampling clauses (coverage-guided mutation, raw random bytes) are a different technique family and are not covered.",
